@@ -177,6 +177,12 @@ def build_family(case):
     n = X * Y * Z
     rng = np.random.default_rng(case["seed"])
     base = int(case.get("base", 0))
+    if case.get("family") == "tables":
+        # random (not consecutive) labels: every block has its own table
+        hi = int(np.iinfo(dtype).max)
+        vals = rng.integers(0, hi, size=n, dtype=np.uint64,
+                            endpoint=True).astype(dtype)
+        return vals.reshape(1, Z, Y, X)
     vals = (base + rng.permutation(n).astype(np.uint64)).astype(dtype)
     return vals.reshape(1, Z, Y, X)
 
@@ -217,6 +223,25 @@ def run_family(bits):
     return run
 
 
+def run_many_tables(ctx, n):
+    """Chunks with ~10^5 blocks, each with its own lookup table (table
+    de-duplication, 24-bit table offsets, large files)."""
+    selftest_reference()
+    strat = st.builds(
+        lambda d, s, b, seed: {"dtype": d, "size": s, "block": b,
+                               "seed": seed, "base": 0, "family": "tables"},
+        st.sampled_from(["uint64", "uint32"]),
+        st.sampled_from([[64, 64, 32], [64, 32, 64]] if ctx.tier == "quick"
+                        else [[64, 64, 64], [128, 64, 32], [64, 48, 80]]),
+        st.sampled_from([[2, 1, 1], [1, 2, 1], [1, 1, 2]]),
+        st.integers(0, 2 ** 32 - 1))
+
+    def check(ctx, case):
+        stats = check_family(ctx, case)
+        ctx.record(case, True, ["bits%d" % b for b in stats] + ["blocks>1e5"])
+    ctx.run_hypothesis(strat, check, n)
+
+
 def replay(ctx, case):
     selftest_reference()
     if "pal" in case:
@@ -229,4 +254,6 @@ SUBS = [
     Sub("encode", run, replay, quick=3000, thorough=120000),
     Sub("bits16", run_family(16), replay, quick=80, thorough=1500, shards=4),
     Sub("bits32", run_family(32), replay, quick=16, thorough=200, shards=4),
+    Sub("many_tables", run_many_tables, replay, quick=4, thorough=40,
+        shards=2),  # ~65k (quick) / ~131k (thorough) lookup tables per chunk
 ]
